@@ -8,8 +8,9 @@
                    expandURI ("$" in the opaque value => error; provider lookup)
      ImplFinish  = no URI found: escapeDollarSigns (ReplaceAll "$$" -> "$") and the value is final
 
-   Fixed = FALSE : substitution with strings.ReplaceAll(input, uri, repl)  -- the pinned tree
-   Fixed = TRUE  : substitution at the index findURI found                 -- the repaired tree (fixes/C12-*.patch)
+   fx = FALSE : substitution with strings.ReplaceAll(input, uri, repl)  -- the pinned tree
+   fx = TRUE  : substitution at the index findURI found                 -- the repaired tree (fixes/C12-escaped-ref-replaceall.patch)
+   (fx is chosen in the initial state from FixedModes, so that one TLC run covers both designs.)
 
    Named deviations from the code:
      * the bound of 1000 rounds is abstracted: the model reports the error when it expands a name that
@@ -18,13 +19,15 @@
        expandedValue.Original is not modelled (it only feeds string fields of container values, which the
        statement does not determine).
 
-   Checked by TLC (ConfResolveImplMC*.cfg): every step of this model is a step of the specification
-   (Refines); for Fixed = FALSE every step is a step of the specification OR starts in a text that
-   satisfies KnownPredicate (the reproduced defect, DESIGN 9.4).                                        *)
+   Checked by TLC (ConfResolveImplMC.cfg, checks/C12.py): every step of the repaired design is a step of
+   the specification; every step of the pinned design is a step of the specification OR starts in a text
+   that satisfies KnownPredicate (the reproduced defect, DESIGN 9.4) -- property Refines.  With
+   FixedModes = {FALSE} and property RefinesStrict TLC exhibits the defect as a 2-state counterexample.  *)
 EXTENDS ConfResolve
-CONSTANT Fixed
-VARIABLE kd            \* history: the known-defect predicate held in some text that was rewritten
-ivars == <<root, cur, wrap, phase, emb, kd>>
+CONSTANT FixedModes    \* subset of BOOLEAN
+VARIABLES fx,          \* which substitution the run uses (constant along a behaviour)
+          kd           \* history: the known-defect predicate held in some text that was rewritten
+ivars == <<root, cur, wrap, phase, emb, fx, kd>>
 
 \* findURI on the suffix of s starting at lo; <<0, 0>> = "" (nothing to expand)
 RECURSIVE FindFrom(_, _, _)
@@ -56,26 +59,26 @@ ImplRound ==
   /\ LET s == cur.s
          u == FindFrom(s, 1, root.def)
      IN  /\ u # <<0, 0>>
-         /\ kd' = (kd \/ KnownPredicate(s, root.def))
+         /\ kd' = (kd \/ KnownPredicate(s, root.def)) /\ UNCHANGED fx
          /\ LET lk == Lookup(Content(s, u), root.def, root.tab) IN
             IF lk.err # "" THEN Fail(lk.err)
             ELSE IF u = <<1, Len(s)>> THEN Whole(lk.e)
             ELSE /\ cur' = [t |-> "str",
-                            s |-> IF Fixed THEN Subst(s, {u}, lk.e.text, 1)
+                            s |-> IF fx THEN Subst(s, {u}, lk.e.text, 1)
                                            ELSE RepAll(s, SubSeq(s, u[1], u[2]), lk.e.text, 1)]
                  /\ emb' = TRUE /\ UNCHANGED <<root, wrap, phase>>
 
 ImplFinish ==
   /\ phase = "run" /\ cur.t = "str"
   /\ FindFrom(cur.s, 1, root.def) = <<0, 0>>
-  /\ cur' = [t |-> "str", s |-> Unesc(cur.s, 1)] /\ phase' = "done" /\ UNCHANGED <<root, wrap, emb, kd>>
+  /\ cur' = [t |-> "str", s |-> Unesc(cur.s, 1)] /\ phase' = "done" /\ UNCHANGED <<root, wrap, emb, fx, kd>>
 
 ImplNext == ImplRound \/ ImplFinish
-ImplInit == Init /\ kd = FALSE
+ImplInit == Init /\ kd = FALSE /\ fx \in FixedModes
 ImplSpec == ImplInit /\ [][ImplNext]_ivars
 
-\* every step of the implementation-shaped model is a step of the specification
-Refines      == [][Next]_vars
-\* pinned tree: ... or starts from a text with the known defect predicate
-RefinesKnown == [][Next \/ KnownPredicate(cur.s, root.def)]_vars
+\* every step of the implementation-shaped model is a step of the specification; the pinned design is excused
+\* only from texts with the known defect predicate
+Refines       == [][Next \/ (~fx /\ KnownPredicate(cur.s, root.def))]_vars
+RefinesStrict == [][Next]_vars
 =============================================================================
